@@ -30,6 +30,7 @@ fn lemmatize(word: &str) -> &str {
             | "decim"
     ) && word != "secondi"
         || candidate.ends_with("esim")
+        || candidate.ends_with("decim")
     {
         candidate
     } else {
